@@ -17,6 +17,7 @@ NFiles == atoi(IOEnv.INCFILES)
 MaxItems == atoi(IOEnv.INCITEMS)
 Files == IF NFiles = 2 THEN {"a", "b"} ELSE IF NFiles = 3 THEN {"a", "b", "c"} ELSE {"a", "b", "c", "d"}
 Absent == "z"
+Limit == atoi(IOEnv.INCLIMIT)        \* 1048576 in the shipped configuration; a harness variant is built with a tiny bound
 \* "wellformed": only tokens and includes of present files (the include layouts of C14)
 WellFormedOnly == IOEnv.INCKIND = "wellformed"
 Items == IF WellFormedOnly THEN {[k |-> "tok"]} \cup {[k |-> "inc", f |-> x] : x \in Files}
@@ -47,7 +48,13 @@ Keep == UNCHANGED <<fs, main, done>> /\ steps' = steps + 1
 PopEOF == ~done /\ stk # <<>> /\ Top.pos > Len(fs[Top.f]) /\ stk' = SubSeq(stk, 1, Len(stk) - 1) /\ UNCHANGED <<out, errs, reqs>> /\ Keep
 \* an ordinary token, or a quoted string that is not the operand of an include (it is a token like any other, also when the file
 \* included just before ended in a bare include)
-EmitTok == ~done /\ AtItem /\ Cur.k \in {"tok", "str"} /\ stk' = Adv /\ out' = Append(out, [f |-> Top.f, l |-> Top.pos, k |-> Cur.k]) /\ UNCHANGED <<errs, reqs>> /\ Keep
+EmitTok == /\ ~done /\ AtItem /\ Cur.k \in {"tok", "str"} /\ out' = Append(out, [f |-> Top.f, l |-> Top.pos, k |-> Cur.k])
+           \* the stream of one compilation is bounded (THEO_SCAN_MAX_TOKENS): the token that reaches the bound is the last one, the
+           \* bound is reported where it was reached and scanning stops (all open files are closed)
+           /\ IF Len(out) + 1 >= Limit
+                THEN stk' = <<>> /\ errs' = Append(errs, [t |-> "TOO_MANY_TOKENS", f |-> Top.f, l |-> Top.pos])
+                ELSE stk' = Adv /\ UNCHANGED errs
+           /\ UNCHANGED reqs /\ Keep
 IncludeNoName == ~done /\ AtItem /\ Cur.k \in {"incbad", "incend"} /\ stk' = Adv
                  /\ errs' = Append(errs, [t |-> "EXPECTED_FILENAME", f |-> Top.f, l |-> Top.pos]) /\ UNCHANGED <<out, reqs>> /\ Keep
 IncludeMissing == ~done /\ AtItem /\ Cur.k = "inc" /\ Cur.f \notin DOMAIN fs /\ stk' = Adv
